@@ -1314,6 +1314,14 @@ func (g *gen) randRecipe(rnd *rand.Rand) *recipe {
 
 // fixedRecipes are run at every seed: every constructor, the id patterns worth naming, the sweeps
 // that put every service and every characteristic constructor of the catalog into a composition.
+// randSvcFor: the i-th service of a generated large accessory (catalog constructors in turn, every fifth one custom)
+func (g *gen) randSvcFor(i int) svcSpec {
+	if i%5 == 4 || len(g.svcs) == 0 {
+		return svcSpec{Ctor: "custom"}
+	}
+	return svcSpec{Ctor: g.svcs[i%len(g.svcs)]}
+}
+
 func (g *gen) fixedRecipes() []*recipe {
 	var out []*recipe
 	// a refused (duplicate id) or removed accessory whose services are reused in its replacement
@@ -1339,6 +1347,24 @@ func (g *gen) fixedRecipes() []*recipe {
 		all2.Accs = append(all2.Accs, accSpec{Ctor: n, ID: id})
 	}
 	out = append(out, all, all2)
+	// accessories far larger than any constructor builds: 99 / 100 / 101 / 150 / 300 services, and services with
+	// 99 / 100 / 101 / 256 / 300 characteristics (a camera, a bridge, a generated profile), alone and followed by a
+	// normal accessory
+	for _, k := range []int{99, 100, 101, 150, 300} {
+		big := accSpec{Ctor: "New", Type: 8}
+		for i := 0; i < k; i++ {
+			big.Services = append(big.Services, g.randSvcFor(i))
+		}
+		out = append(out, &recipe{Kind: fmt.Sprintf("accessory-with-%d-services", k), Accs: []accSpec{big, {Ctor: g.accs[k%len(g.accs)]}}})
+	}
+	for _, k := range []int{99, 100, 101, 256, 300} {
+		var chars []string
+		for i := 0; i < k; i++ {
+			chars = append(chars, g.chars[(i*7+k)%len(g.chars)])
+		}
+		out = append(out, &recipe{Kind: fmt.Sprintf("service-with-%d-characteristics", k),
+			Accs: []accSpec{{Ctor: "New", Type: 8, Services: []svcSpec{{Ctor: "custom", Chars: chars}, {Ctor: "custom"}}}, {Ctor: g.accs[k%len(g.accs)]}}})
+	}
 	sw := "NewSwitch"
 	if _, ok := svcByName[sw]; !ok && len(g.svcs) > 0 {
 		sw = g.svcs[0]
